@@ -89,7 +89,8 @@ def run_side(case, use_stock):
             if td:
                 out["debug"] = (td.get("line"), td.get("during"), str(td.get("message")), td.get("name"))
         try:
-            out["ctx"] = repr([dict(d) for d in c.dicts])
+            # (objects such as the IfChangedNode that {% ifchanged %} uses as a key print their memory address)
+            out["ctx"] = re.sub(r" at 0x[0-9a-fA-F]+>", " at 0x?>", repr([dict(d) for d in c.dicts]))
         except Exception as e:  # noqa
             out["ctx"] = "unreprable %r" % (e,)
         out["rc_depth"] = len(c.render_context.dicts)
